@@ -96,6 +96,13 @@ func optStr(nilp bool, s func() string) string {
 	return "S " + s()
 }
 
+var c25Rows = [][]byte{
+	[]byte(`{"a":{"b":"x y"},"level":"error","tags":["admin","dev"],"n":5}`),
+	[]byte(`{"a":{"b":"y"},"level":"warn","tags":[],"n":6}`),
+	[]byte(`{"level":"info","msg":"hello world","user":"alice"}`),
+	[]byte(`{}`),
+}
+
 func runC25(c *ctx) {
 	c.r.Rule = "constructors And/Or (3 kinds) vs Lean mkAnd/mkOr on random argument lists (incl. same-type children with and without a Condition); random builder call sequences vs the Lean builder fold; " +
 		"json.Marshal of random trees vs the Lean encoder, json.Unmarshal vs the Lean decoder, decoded tree vs original, and evaluation/query equality after the round trip; Query round trip. " +
@@ -140,12 +147,29 @@ func runC25(c *ctx) {
 				a2 = append(a2, regexStr(&res[j]))
 				a3 = append(a3, preStr(&pes[j]))
 			}
+			// meaning: the constructor's result must select exactly the rows the plain nested tree selects
+			typ := bs.BloomExpressionAnd
+			if which == "or" {
+				typ = bs.BloomExpressionOr
+			}
+			lit := bs.BloomExpression{ExpressionType: typ, Children: bes}
+			for _, row := range c25Rows {
+				g, _, e1 := bs.VerifMatchRow(row, &bs.BloomQuery{Expression: &gb}, nil, tokModes[0].fn)
+				l, _, e2 := bs.VerifMatchRow(row, &bs.BloomQuery{Expression: &lit}, nil, tokModes[0].fn)
+				if e1 == nil && e2 == nil && g != l {
+					c.r.Add(Finding{Kind: "violation", Check: "constructor-changes-meaning", Detail: fmt.Sprintf("%s(args...) matches=%v but the nested tree {%s, children: args} matches=%v on row %s", which, g, typ, l, row),
+						Replay: map[string]any{"args": bes, "constructed": gb, "row": string(row)}})
+					break
+				}
+			}
 			check("B", bloomStr(&gb), a1)
 			check("R", regexStr(&gr), a2)
 			check("P", preStr(&gp), a3)
 		}
 		// ---- builder
 		nops := r.IntN(7)
+		var addedB []bs.BloomExpression
+		var addedR []bs.RegexExpression
 		b := bs.NewQuery()
 		bt := (&toks{}).add("builder").n(nops)
 		for j := 0; j < nops; j++ {
@@ -153,26 +177,32 @@ func runC25(c *ctx) {
 			case 0:
 				f := p.path(r)
 				b.Field(f)
+				addedB = append(addedB, bs.Field(f))
 				bt.add("field").s(f)
 			case 1:
 				x := p.token(r)
 				b.Token(x)
+				addedB = append(addedB, bs.Token(x))
 				bt.add("token").s(x)
 			case 2:
 				f, x := p.path(r), p.token(r)
 				b.FieldToken(f, x)
+				addedB = append(addedB, bs.FieldToken(f, x))
 				bt.add("fieldtoken").s(f).s(x)
 			case 3:
 				e := genBloomExpr(r, p, 2)
 				b.Match(e)
+				addedB = []bs.BloomExpression{e} // Match replaces what was built so far
 				bt.add("match").add(bloomStr(&e))
 			case 4:
 				f, pat := p.path(r), pick(r, patternPool)
 				b.FieldRegex(f, pat)
+				addedR = append(addedR, bs.FieldRegex(f, pat))
 				bt.add("fieldregex").s(f).s(pat)
 			case 5:
 				e := genRegexExpr(r, p, 2, true)
 				b.MatchRegex(e)
+				addedR = []bs.RegexExpression{e}
 				bt.add("matchregex").add(regexStr(&e))
 			default:
 				e := genPreExpr(r, 2, nil)
@@ -181,6 +211,25 @@ func runC25(c *ctx) {
 			}
 		}
 		q := b.Build()
+		// meaning of a chain: the conjunction of what was added (after the last Match / MatchRegex)
+		if len(addedB) > 0 || len(addedR) > 0 {
+			var lb *bs.BloomQuery
+			var lr *bs.RegexQuery
+			if len(addedB) > 0 {
+				lb = &bs.BloomQuery{Expression: &bs.BloomExpression{ExpressionType: bs.BloomExpressionAnd, Children: addedB}}
+			}
+			if len(addedR) > 0 {
+				lr = &bs.RegexQuery{Expression: &bs.RegexExpression{ExpressionType: bs.RegexExpressionAnd, Children: addedR}}
+			}
+			for _, row := range c25Rows {
+				g, _, e1 := bs.VerifMatchRow(row, q.Bloom, q.Regex, tokModes[0].fn)
+				l, _, e2 := bs.VerifMatchRow(row, lb, lr, tokModes[0].fn)
+				if e1 == nil && e2 == nil && g != l {
+					c.r.Add(Finding{Kind: "violation", Check: "builder-changes-meaning", Detail: fmt.Sprintf("the built query matches=%v, the conjunction of the chained conditions matches=%v on row %s", g, l, row), Replay: map[string]any{"line": bt.String(), "row": string(row), "built_bloom": q.Bloom, "built_regex": q.Regex}})
+					break
+				}
+			}
+		}
 		got := optStr(q.Prefilter.Expression == nil, func() string { return preStr(q.Prefilter.Expression) }) + " | " +
 			optStr(q.Bloom.Expression == nil, func() string { return bloomStr(q.Bloom.Expression) }) + " | " +
 			optStr(q.Regex.Expression == nil, func() string { return regexStr(q.Regex.Expression) })
